@@ -128,8 +128,13 @@ func runC04(k *eng.Check, tier string) {
 		}
 	}
 	if fn := k.Fn("(*store/nbs.journalWriter).corruptIndexRecovery"); fn != nil {
+		// the recovery routine and the helpers it calls
+		recClosure := c.StaticClosure([]*ssa.Function{fn}, func(p string) bool { return p == "store/nbs" }, 2)
 		for _, f := range []string{"off", "indexed", "uncmpSz", "ranges"} {
-			st := eng.FieldStores(fn, `store/nbs\.journalWriter$`, f)
+			var st []ssa.Instruction
+			for _, g := range recClosure {
+				st = append(st, eng.FieldStores(g, `store/nbs\.journalWriter$`, f)...)
+			}
 			k.Require("index-reset-complete", eng.Name(fn)+"#"+f, "index recovery resets journalWriter."+f+" (state populated while loading the index)", len(st) >= 1, c.Pos(fn.Pos()), "field not reset: stale index state would survive the fallback")
 		}
 		// fields written by the index loader must be a subset of what recovery resets
